@@ -224,10 +224,14 @@ class Spec(PropSpec):
                     "sockets without a live connection, linger/RST on close of open ones, and the strictly decreasing retransmit "
                     "measure that bounds how long a lingering socket with something in flight survives; refuted on the code as "
                     "it is: reclamation of a lingering socket that has nothing in flight and whose peer is gone "
-                    "(class OrphanLinger, c13_reclaimed_refuted)")
+                    "(class OrphanLinger, c13_reclaimed_refuted). NOT proved: the ownership partition over whole histories (c13_owned: "
+                    "every table entry is held by a handle, queued for accept, kernel-closed or a handshaking child of a live "
+                    "listener) - coq/NetTcp/C13_part.v holds the invariant and its preservation by the table primitives, the "
+                    "listener-close arm needs the binding-index/bound-field agreement; the statement is checked on every "
+                    "implementation trace by the oracle (verif-hooks rows and counts after teardown) and by the correspondence")
 
     def gen_cases(self, ctx):
-        n = 220 if ctx.tier == "quick" else 3000
+        n = 400 if ctx.tier == "quick" else 3000
         if ctx.escalate:
             n *= 2
         cases = []
